@@ -444,5 +444,43 @@ func C07(c *core.Ctx) {
 		}
 		c.Hist(fmt.Sprintf("concurrent(%d) held values re-compared", workers))
 	}
+	// (d) several goroutines send their own messages through ONE client (free running, race detector on): what the
+	//     connection receives for a send is that message's encoding -- one sender's message is not altered by another's
+	for _, workers := range []int{2, 6} {
+		cl, f := liveClient(false)
+		want := map[string]int{}
+		var wg sync.WaitGroup
+		var mu sync.Mutex
+		for w := 0; w < workers; w++ {
+			wg.Add(1)
+			go func(w int) {
+				defer wg.Done()
+				for i := 0; i < c.N(40, 300); i++ {
+					m := &protocol.Message{Tag: fmt.Sprintf("w%d.i%d", w, i), Timestamp: int64(i), Record: map[string]interface{}{"k": strings.Repeat(string(rune('a'+w)), 50+(i*131+w*977)%5000)}}
+					enc, _ := m.MarshalMsg(nil)
+					if err := cl.Send(m); err == nil {
+						mu.Lock()
+						want[string(enc)]++
+						mu.Unlock()
+					}
+				}
+			}(w)
+		}
+		wg.Wait()
+		c.Eval()
+		c.Hist(fmt.Sprintf("concurrent(%d) senders on one client", workers))
+		wire := f.Conns[0].Accepted()
+		got := map[string]int{}
+		for _, wv := range f.Conns[0].Writes {
+			got[string(wv.Data)]++
+		}
+		okAll := true
+		for k, n := range want {
+			okAll = okAll && got[k] == n
+		}
+		if !okAll || len(got) != len(want) {
+			c.Violation("judge-go", "c07-send-altered", fmt.Sprintf("%d goroutines sending through one client: the writes received by the connection are not exactly the encodings of the messages sent (%d bytes on the wire)", workers, len(wire)), nil)
+		}
+	}
 	_ = client.DefaultConnectionTimeout
 }
